@@ -1466,9 +1466,12 @@ impl<'a> Visitor<'a, '_, Error> for JSONValidator<'a> {
     ctrl: ControlOperator,
     controller: &Type2<'a>,
   ) -> visitor::Result<Error> {
+    // Operands reached through plain rule references ('x1 .size 1' with
+    // 'x1 = (uint)') are the operands those rules name
+    let cddl = self.state.cddl;
     let (target, controller) = (
-      strip_operand_parens(target),
-      strip_operand_parens(controller),
+      resolve_control_operand(cddl, target),
+      resolve_control_operand(cddl, controller),
     );
 
     if let Type2::Typename {
